@@ -50,6 +50,13 @@ def register(reg, P):
     fam["dim_two_inputs"] = (lambda x, y: x.sum() + y.sum() + dimval(x.shape[0] * 3 + y.shape[0]).astype(jnp.float32), [(("B", 2), F32), (("N", 2), F32)])
     fam["dim_sym_axis1"] = (lambda x: x.sum() + dimval(x.shape[1] * 2 + 1).astype(jnp.float32), [((2, "N"), F32)])
     fam["reshape_two_syms"] = (lambda x: x.reshape(2 * x.shape[1], 2 * x.shape[0]), [(("B", "N", 4), F32)])
+    # dimension expressions that determine an OUTPUT SHAPE: decided for all bindings in shape mode
+    fam["bcast_dim_sum"] = (lambda x, y: jnp.broadcast_to(y, (x.shape[0] + x.shape[1], 2)) + 1.0, [(("B", "N"), F32), ((1, 2), F32)])
+    fam["bcast_dim_pow"] = (lambda x, y: jnp.broadcast_to(y, (x.shape[0] ** 2 + 2 * x.shape[0], 2)) * 2.0, [(("B", 3), F32), ((1, 2), F32)])
+    fam["bcast_dim_floordiv"] = (lambda x, y: jnp.broadcast_to(y, ((x.shape[0] + 3) // 2, 2)) * 2.0, [(("B", 3), F32), ((1, 2), F32)])
+    fam["bcast_dim_mod"] = (lambda x, y: jnp.broadcast_to(y, (x.shape[0] % 3 + 1, 2)) * 2.0, [(("B", 3), F32), ((1, 2), F32)])
+    fam["bcast_dim_two_syms"] = (lambda x, y: jnp.broadcast_to(y, (2 * x.shape[0] + x.shape[1], 2)) * 2.0, [(("B", "N"), F32), ((1, 2), F32)])
+    fam["tile_dim_expr"] = (lambda x, y: jnp.tile(y, (x.shape[0] * 2 + 1, 1)), [(("B", 3), F32), ((1, 2), F32)])
     fam["dim_square"] = (lambda x: x.sum() + dimval(x.shape[0] * x.shape[0]).astype(jnp.float32), [(("B", 2), F32)])
     fam["dim_max"] = (lambda x: x.sum() + dimval(jax.export.symbolic_shape and max(x.shape[0], 3) if isinstance(x.shape[0], int) else jnp_max_dim(x.shape[0], 3)).astype(jnp.float32), [(("B", 2), F32)])
     fam["arange_dim"] = (lambda x: x[:, 0] + jnp.arange(x.shape[0], dtype=jnp.float32), [(("B", 2), F32)])
